@@ -78,6 +78,11 @@ class Model:
         k = op["op"]
         ch = op.get("ch")
         c = self.chans.get(ch) if ch is not None else None
+        if self.param and (k in ("config_detuning_map", "config_slm_mask") or (isinstance(ch, str) and ch.startswith("dmm_"))
+                           or (k == "align" and any(str(x).startswith("dmm_") for x in op.get("chs", [])))):
+            # DMM declarations are deferred to build time on a parametrized sequence: their bookkeeping is not
+            # part of the documented mode
+            return VALUE, "deferred-dmm"
         timeline_ops = ("declare_channel", "target", "target_index", "add", "add_eom_pulse", "add_dmm_detuning",
                         "delay", "align", "enable_eom_mode", "modify_eom_setpoint", "disable_eom_mode",
                         "config_detuning_map", "measure")
